@@ -39,7 +39,7 @@ func errTok(err error) string {
 
 func main() {
 	hlib.Guarded(func(run *hlib.Run) {
-		run.Rule = "rings of 3..5 real LocalNodes with millisecond timers; 3 client goroutines x 8..12 operations (Put/Get/Delete/PrefixAppend/PrefixContains/PrefixRemove/PrefixList) on 2 keys through random live entry nodes, seeded yields, while a churn goroutine performs a join and a leave; history per key checked for linearizability (≤ ~20 calls per object); non-trivial = distinct case in which a membership change overlapped client calls"
+		run.Rule = "rings of 3..5 real LocalNodes with millisecond timers; 3 client goroutines x 8..12 operations (Put/Get/Delete/PrefixAppend/PrefixContains/PrefixRemove/PrefixList) on 2 keys through random live entry nodes, seeded yields, while a churn goroutine performs a join and a leave (half of the cases: the leave of the key owner L runs inside the window in which L's successor holds the membership lock for a joiner placed directly behind L); history per key checked for linearizability (≤ ~20 calls per object); non-trivial = distinct case in which a membership change overlapped client calls"
 		rng := hlib.NewRng(run.Seed)
 		cases := 12
 		if run.Thorough() {
@@ -58,6 +58,48 @@ func main() {
 func oneCase(run *hlib.Run, rng *hlib.Rng, c int) {
 	n := 3 + rng.Intn(3)
 	ids := ringh.AdversarialIDs(rng, n+1)
+	plain := []string{"a", "ab", "abc", "b", "b1", "b2", "d", "k7", "zz", "q"}
+	keys := []string{hlib.Pick(rng, plain), hlib.Pick(rng, plain)}
+	// directed window (half of the cases): the leaver L is the owner of keys[0], the joiner's id lies directly
+	// behind L (both share the successor S), the join is held right after S accepted it - before the advisory
+	// FinishJoin reaches L - and L's Leave runs inside that window, while S holds the membership lock for the joiner
+	directed := rng.Chance(50)
+	var dirLeaver uint64
+	if directed {
+		succOf := func(x uint64, strict bool) uint64 {
+			best, bd := ids[0], uint64(0)
+			first := true
+			for _, m := range ids[:n] {
+				d := (m + ringh.M - x) % ringh.M
+				if strict && d == 0 {
+					d = ringh.M
+				}
+				if first || d < bd {
+					best, bd, first = m, d, false
+				}
+			}
+			return best
+		}
+		directed = false
+		start := rng.Intn(len(plain))
+		for i := range plain {
+			k := plain[(start+i)%len(plain)]
+			l := succOf(ringh.HashOf(k), false)
+			s := succOf(l, true)
+			gap := (s + ringh.M - l) % ringh.M
+			if gap < 3 {
+				continue
+			}
+			span := gap - 2
+			if span > 1000 {
+				span = 1000
+			}
+			keys[0], dirLeaver, directed = k, l, true
+			ids[n] = (l + 1 + rng.U64()%span) % ringh.M
+			run.Count("variant:leave-inside-join-window")
+			break
+		}
+	}
 	r := ringh.NewRing()
 	r.Interval = interval
 	for _, id := range ids {
@@ -92,8 +134,6 @@ func oneCase(run *hlib.Run, rng *hlib.Rng, c int) {
 		sort.Slice(ls, func(i, j int) bool { return ls[i] < ls[j] })
 		return ls[int(x%uint64(len(ls)))]
 	}
-	plain := []string{"a", "ab", "abc", "b", "b1", "b2", "d", "k7", "zz", "q"}
-	keys := []string{hlib.Pick(rng, plain), hlib.Pick(rng, plain)}
 	var seq atomic.Uint64
 	var mu sync.Mutex
 	var evs []ev
@@ -204,10 +244,52 @@ func oneCase(run *hlib.Run, rng *hlib.Rng, c int) {
 	joiner, leaver := ids[n], members[rng.Intn(len(members))]
 	peer := members[rng.Intn(len(members))]
 	d1, d2 := time.Duration(rng.Intn(6))*time.Millisecond, time.Duration(rng.Intn(10))*time.Millisecond
+	if directed {
+		leaver = dirLeaver
+	}
 	go func() {
 		defer wg.Done()
 		defer func() { recover() }()
 		time.Sleep(d1)
+		if directed {
+			at, resume := r.PauseNext(func(m string) bool { return strings.HasPrefix(m, "FinishJoin") })
+			jd := make(chan error, 1)
+			go func() {
+				defer func() {
+					if recover() != nil {
+						jd <- errors.New("panic")
+					}
+				}()
+				jd <- r.Node(joiner).Join(r.Wrap(peer))
+			}()
+			ld := make(chan struct{})
+			select {
+			case <-at: // S accepted the joiner and holds its lock; L has not been told yet
+				live.Delete(leaver)
+				go func() { defer close(ld); defer func() { recover() }(); r.Node(leaver).Leave() }()
+				time.Sleep(d2 + 2*interval)
+				run.Count("window:leave-started-inside")
+			case err := <-jd:
+				jd <- err
+				close(ld)
+			case <-time.After(3 * time.Second):
+				close(ld)
+			}
+			resume()
+			select {
+			case err := <-jd:
+				if err == nil {
+					live.Store(joiner, true)
+				}
+			case <-time.After(3 * time.Second):
+			}
+			select {
+			case <-ld:
+			case <-time.After(3 * time.Second):
+			}
+			churned.Store(true)
+			return
+		}
 		if r.Node(joiner).Join(r.Wrap(peer)) == nil {
 			live.Store(joiner, true)
 			churned.Store(true)
@@ -223,6 +305,53 @@ func oneCase(run *hlib.Run, rng *hlib.Rng, c int) {
 		churned.Store(true)
 	}()
 	wg.Wait()
+	// closing reads: once clients and churn are done, every object is read through a live entry node (a few
+	// attempts while lookups still fail with retryable errors); the reads are ordinary calls of the history
+	for _, k := range keys {
+		for _, what := range []string{"get", "list"} {
+			for attempt := 0; attempt < 40; attempt++ {
+				w := r.Wrap(pickEntry(rng.U64()))
+				inv := seq.Add(1)
+				var obj, res string
+				if what == "get" {
+					obj = k + "/s"
+					v, err := w.Get(ctx, []byte(k))
+					if err != nil {
+						res = errTok(err)
+					} else if len(v) == 0 {
+						res = "-"
+					} else {
+						res = string(v)
+					}
+				} else {
+					obj = k + "/c"
+					l, err := w.PrefixList(ctx, []byte(k))
+					if err != nil {
+						res = errTok(err)
+					} else {
+						var cs []string
+						for _, x := range l {
+							cs = append(cs, string(x))
+						}
+						sort.Strings(cs)
+						if len(cs) == 0 {
+							res = "."
+						} else {
+							res = strings.Join(cs, ",")
+						}
+					}
+				}
+				ret := seq.Add(1)
+				if strings.HasPrefix(res, "err:") {
+					time.Sleep(2 * interval)
+					continue
+				}
+				evs = append(evs, ev{obj, inv, ret, what, res})
+				run.Count("closing-read")
+				break
+			}
+		}
+	}
 	run.Raw("reset")
 	sort.Slice(evs, func(i, j int) bool { return evs[i].inv < evs[j].inv })
 	for _, e := range evs {
